@@ -101,6 +101,12 @@ CLAIMS = {
              "line/column within the bound toPos yields a valid token.Pos that the file set maps back to the same file and line, for real files, fake archive files (padded on demand) and files the set did not know.",
         note="Partial: report position and position mapping only; existence of files on disk, drivers and path printing are environment. Executes the real go/token file-set code.",
     ),
+    "C20": dict(
+        text="Second sentence of the property only (a possibly-nil argument of a contracted function keeps the call result possibly nil): within the bounds the solver shows that a controlled trigger is "
+             "active exactly when its controller (the call-site argument site) is nilable - whether it became nilable by a flow, by an annotation before registration, or only in the second inference round - in every order.",
+        note="Partial: K1 (truth of the inferred contract itself, functioncontracts.inferContracts over go/ssa) is not decided - see evidence.coverage.outside_bounds. "
+             "Found and fixed (two fix: commits): pre-determined controllers and controllers determined in the second round never activated their triggers.",
+    ),
 }
 
 # reasons for every property not (yet) claimed
@@ -109,5 +115,5 @@ NOT_APPLICABLE = {
     "C16": "The quantifier is goroutine interleavings over the whole analysis heap; symx has no thread model and no installed solver-based engine explores Go schedules.",
     "C18": "Everything the property depends on is environment (process cwd captured at init, filepath.Rel, driver cwd); after stubbing those by contract the residual repo code is a one-line wrapper.",
 }
-for _p in ["C20"]:
+for _p in []:
     NOT_APPLICABLE.setdefault(_p, "kernel check not yet registered (in progress; see DESIGN.md section 4)")
